@@ -21,3 +21,9 @@ for ob_, nm in [(0, 'array'), (1, 'object')]:
     OBS.append(Ob(['C15', 'C09', 'C03', 'C05'], 'md_read_' + nm, 'mpd_cont', 'harness/mpd_cont.c', 'h_md_container', defs=['UNIT_H="mpd_cont.h"', 'OBJECT=%d' % ob_], unwind=6, cap=300, hunwind=8, fs='none',
         desc='MsgPack read%s one activation (children, keys and slot allocation cut): limit 0 => TooDeep first, children get limit-1, count honoured, first failure decides the code, NoMemory on a failed slot' % nm.capitalize(),
         bound='announced count 0..3, all limits 0..255, every child / key / allocation behaviour allowed by the contracts'))
+UNITS += [Unit('mpd_f', 'wrappers/mpd.cpp', defs=MPD, cuts={'CUT_RA': r'MsgPackDeserializerI7VReaderE9readArrayINS1_14AllowAllFilterE', 'CUT_RO': r'MsgPackDeserializerI7VReaderE10readObjectINS1_14AllowAllFilterE',
+    'CUT_RAF': r'MsgPackDeserializerI7VReaderE9readArrayINS0_21DeserializationOption6FilterE', 'CUT_ROF': r'MsgPackDeserializerI7VReaderE10readObjectINS0_21DeserializationOption6FilterE'})]
+for fs_, nm in [(0, 'true'), (1, 'false'), (2, '{}'), (3, '[]')]:
+    OBS.append(Ob(['C11', 'C03', 'C09'], 'md_variant_filter_%d' % fs_, 'mpd_f', 'harness/mpd.c', 'h_md_variant_filter', defs=['UNIT_H="mpd_f.h"', 'NB=6', 'FSHAPE=%d' % fs_], unwind=9, cap=400, hunwind=20, fs='none', objbits=12,
+        desc='MsgPack parseVariant under the filter %s vs the unfiltered run on the same bytes (non-container codes): identity for true; otherwise value stays null, same code and consumption, no allocation' % nm,
+        bound='every non-container first byte x all continuations up to 6 bytes x every truncation length'))
